@@ -409,6 +409,29 @@ func c07Workload(r *Rand, ctx *Ctx, dir string, minLangs, maxLangs int) *Workloa
 	if r.Chance(1, 2) {
 		EnrichWorkload(r.Fork("enrich"), w, dir)
 	}
+	if r.Chance(1, 4) {
+		// builders with a common `duplicate` (and `rename`) veneer: rules are closures
+		// held by a rewriter that the pipeline caches and reuses for every language
+		w.Builders = true
+		if schemas := dryLoad(dir, w); schemas != nil {
+			view := ViewOf(schemas)
+			var rules []string
+			for _, p := range view.Pkgs {
+				for _, o := range p.Objects {
+					if o.Kind == ast.KindStruct && len(rules) < 2 {
+						rules = append(rules, fmt.Sprintf("language: all\npackage: %s\nbuilders:\n  - duplicate:\n      by_object: %s\n      as: %sCopy\n", yq(p.Name), yq(o.Name), o.Name))
+					}
+				}
+			}
+			for i, y := range rules {
+				w.Files[fmt.Sprintf("cfg/veneers_dup/d%d.yaml", i)] = y
+			}
+			if len(rules) > 0 {
+				w.VeneerDirs = append(w.VeneerDirs, "cfg/veneers_dup")
+				w.Name += " +duplicate-veneer"
+			}
+		}
+	}
 	w.RepoTpl = "" // repository templates are not attributed to a language
 	return w
 }
